@@ -169,7 +169,7 @@ def check_tolerances(prog, rep, rule, roots):
     return n
 
 
-def _bool_leaves(prog, t, pol, depth):
+def _bool_leaves(prog, t, pol, depth, f=None):
     """comparisons a bool expression is built from, each with the truth value that drives the whole expression towards false:
     yields (comparison, value).  Read through !x, a & b, a | b, iter.all(closure) / iter.any(closure) and direct calls of local closures
     (parameters replaced by the argument terms, captures by the captured terms)."""
@@ -177,12 +177,18 @@ def _bool_leaves(prog, t, pol, depth):
     if depth > 6 or not isinstance(t, tuple):
         return
     k = tag(t)
+    if k == 'local' and f is not None:
+        # a bool assembled by short-circuit evaluation (`a || b`): every non-constant definition contributes with the same polarity
+        for st in f.stores():
+            if st.target == t and tag(st.value) != 'const':
+                yield from _bool_leaves(prog, st.value, pol, depth + 1, f)
+        return
     if k == 'un' and t[1] == 'Not':
-        yield from _bool_leaves(prog, t[2], not pol, depth)
+        yield from _bool_leaves(prog, t[2], not pol, depth, f)
         return
     if k == 'bin' and t[1] in ('BitAnd', 'BitOr'):
-        yield from _bool_leaves(prog, t[2], pol, depth)
-        yield from _bool_leaves(prog, t[3], pol, depth)
+        yield from _bool_leaves(prog, t[2], pol, depth, f)
+        yield from _bool_leaves(prog, t[3], pol, depth, f)
         return
     if k == 'bin' and t[1] in ('Lt', 'Le', 'Gt', 'Ge', 'Eq', 'Ne'):
         yield (t, not pol)
